@@ -1,5 +1,7 @@
 # shared groups (loaded first)
 # storage engine, Vec-backed container models, real 16 shards
-group("eng", family="vec", shrinks={}, overlays={"src/storage/engine.rs": "ovl_engine.rs"})
+group("eng", family="vec", shrinks={}, overlays={"src/storage/engine.rs": "ovl_engine.rs"}, fs_array=4096)
 # protocol codec: pure code, no container rewrite needed
 group("proto", family="std", shrinks={}, overlays={"src/protocol/parser.rs": "ovl_parser.rs"})
+# engine with 2 shards per database (functions that loop over all shards: sweeper, scan, keys, flush)
+group("eng2s", family="vec", shrinks={"SHARDS_PER_DATABASE": 2}, overlays={"src/storage/engine.rs": "ovl_engine.rs"}, fs_array=4096)
